@@ -15,8 +15,9 @@ inductive Resolved where
   | callOf (f : Node)         -- what calling the function expression `f` with no arguments returns
   deriving BEq
 
-/-- Vue (`resolvePropValue`): a default that is a function is called as a factory unless the prop's type includes
-    `Function`; anything else is the value itself. -/
+/-- Vue (`resolvePropValue`: `opt.type !== Function && isFunction(default)`): a default that is a function is called as a
+    factory unless the prop's `type` IS `Function`; anything else is the value itself.  `isFunctionProp` is Vue's test on
+    the emitted `type` — `C18_function_flag_is_vues` shows the model's flag is that test. -/
 def vueResolve (isFunctionProp : Bool) (d : Node) : Resolved :=
   match d with
   | .mk .arrow _ [_, body, _, _] =>
@@ -187,5 +188,34 @@ theorem C18_no_default_no_entry (ds : List (Node × Node × Bool)) (key : Node)
     (h : ∀ d ∈ ds, defaultMatches d.1 key = false) : ds.find? (fun d => defaultMatches d.1 key) = none := by
   simp only [List.find?_eq_none]
   intro d hd; simp [h d hd]
+
+/-- Vue's test `opt.type === Function` on an emitted `type:` expression -/
+def vueTypeIsFunction (e : Node) : Bool :=
+  match e with
+  | .mk .ident ("Function" :: _) _ => true
+  | _ => false
+
+/-- The flag by which the model (and the code) decides whether to hand a default over unwrapped is exactly Vue's own test
+    on the `type` that is emitted next to it: a union such as `[String, Function]` is NOT a Function prop (fix 57ff9cd). -/
+theorem C18_function_flag_is_vues (types : List RT) : vueTypeIsFunction (typeExprOf types) = isExactlyFunction types := by
+  unfold typeExprOf isExactlyFunction
+  match types with
+  | [] => simp [vueTypeIsFunction, nArray]
+  | [t] =>
+    cases t with
+    | none => simp [rtExpr, nNull, vueTypeIsFunction]
+    | some n => 
+      simp only [rtExpr, nQuoteIdent, nIdent, vueTypeIsFunction]
+      by_cases h : n = "Function"
+      · subst h; simp
+      · have : (n == "Function") = false := by simpa using h
+        split
+        · rename_i heq; injection heq with _ h2 _; injection h2 with h3 _; exact absurd h3.symm (by intro hh; exact h hh.symm)
+        · simp_all
+  | a :: b :: rest => simp [vueTypeIsFunction, nArray]
+
+theorem C18_union_with_function_is_not_function_prop :
+    isExactlyFunction [some "String", some "Function"] = false ∧ isExactlyFunction [some "Function", none] = false
+    ∧ isExactlyFunction [some "Function"] = true := by decide
 
 end VueJsx
